@@ -13,7 +13,7 @@ from extract import ExtractionError, code_tokens, match_brace
 AST = "prqlc/prqlc/src/codegen/ast.rs"
 IDENT = "prqlc/prqlc-parser/src/parser/pr/ident.rs"
 
-LABELS = ["IS1", "IS2", "IS3"]
+LABELS = ["IS1", "IS2", "IS3", "FR1", "FR1h", "FR2"]
 FUNCTIONS = ["forbidden_start", "forbidden_subsequent"]
 RLIMIT = 30
 
@@ -27,7 +27,7 @@ TRUSTED = [
     "`module `my mod` { .. }`, `into `my out``, `f `x y`:1 2`) must be printed with them, else the output does not parse or parses as something else",
     "oracle (C14), characters: the lexer's ident_part starts a plain name with a letter or `_` and continues it with letters, digits and `_`; `$` starts a PARAMETER token. "
     "So a name may be printed bare only if its first character is a letter or `_` (IS1: in particular not `$`) and the others are letters, digits or `_` (IS2); ordinary "
-    "names stay bare (IS3)",
+    "names stay bare (IS3); the formatter's own test valid_prql_ident() accepts exactly the texts of that shape (FR1-2, the pattern literal compiled into a spec function on every run)",
 ]
 
 SITES = [("var_def.name", r"\bvar_def\.name\b"), ("type_def.name", r"\btype_def\.name\b"), ("module_def.name", r"\bmodule_def\.name\b")]
@@ -96,7 +96,24 @@ def build(X):
     fsub.contract("""
         ensures !r ==> (ascii_alpha(c) || ascii_digit(c) || c == '_'), // @IS2
     """)
+    # the regex of the formatter's own bare-name test (valid_prql_ident): compiled into a spec function by the regex front end of unit ident_regex
+    import ident_regex
+    vf = X.fn(AST, "valid_prql_ident")
+    mre = re.search(r'Regex::new\(r"((?:[^"\\]|\\.)*)"\)', vf.text)
+    if not mre:
+        raise ExtractionError("valid_prql_ident: `Regex::new(r\"..\")` with a raw string literal not found")
+    pat = mre.group(1)
+    mo = re.match(r"^\^\((?:\?:)?(.*)\)\$$", pat, re.S)
+    spec, _ = ident_regex.compile_regex("|".join("^" + a + "$" for a in ident_regex._split_top(mo.group(1))) if mo else pat)
+    vf.rewrites.append({"rule": "table", "what": "the pattern literal %r of valid_prql_ident() compiled into the spec function fmt_re_match" % pat})
     lines = ["", "#![allow(unused_imports, dead_code)]", "use vstd::prelude::*;", "verus! {",
+             "pub open spec fn fmt_re_match(s: Seq<char>) -> bool { %s }" % spec,
+             "// a text the lexer reads back as ONE bare name part (ident_part: a letter or `_`, then letters, digits, `_`), or the star",
+             "pub open spec fn bare_prql(s: Seq<char>) -> bool { (s.len() == 1 && s[0] == '*') || (s.len() >= 1 && (ascii_alpha(s[0]) || s[0] == '_') && forall|i: int| 1 <= i < s.len() ==> (ascii_alpha(#[trigger] s[i]) || ascii_digit(s[i]) || s[i] == '_')) }",
+             "proof fn fr1(s: Seq<char>) ensures fmt_re_match(s) ==> bare_prql(s), // @FR1",
+             "{ if fmt_re_match(s) && !(s.len() == 1 && s[0] == '*') { assert forall|i: int| 1 <= i < s.len() implies (ascii_alpha(#[trigger] s[i]) || ascii_digit(s[i]) || s[i] == '_') by {} } } // @FR1h",
+             "proof fn fr2(s: Seq<char>) ensures bare_prql(s) ==> fmt_re_match(s), // @FR2",
+             "{}",
              "pub open spec fn ascii_alpha(c: char) -> bool { ('a' <= c && c <= 'z') || ('A' <= c && c <= 'Z') }",
              "pub open spec fn ascii_digit(c: char) -> bool { '0' <= c && c <= '9' }",
              "#[verifier::external_body] pub fn is_ascii_alphabetic_c(c: char) -> (r: bool) ensures r == ascii_alpha(c), { unimplemented!() }",
@@ -117,6 +134,8 @@ PROGRAMS = [
     "let f = a `x y`:1 -> a + `x y`\nfrom t\nselect {y = (f `x y`:2 a)}\n",
     "let `let` = (from t)\nfrom `let`\n",
     "from sales\nselect {region, `a$b`, `$x`, `x$`}\n",
+    # names the lexer does not read as bare names: a letter followed by a combining mark (NFD), a name with a virama (round-6 seed C14-11)
+    "from t\nderive {`cafe\u0301` = price * 2, `\u0915\u094d\u092f\u093e` = 3}\n",
     # several named arguments: the map they are kept in has no order of its own; the formatter's output must not depend on the run
     "let f = func x a:1 b:2 c:3 d:4 e:5 g:6 -> x\nfrom t\nselect {y = (f g:6 e:5 d:4 c:3 b:2 a:1 z)}\n",
 ]
